@@ -343,6 +343,43 @@ RETURN_ENTRIES = [("int", "the result."), ("float", "scaled reading"), ("str", "
 RET_ANNS = ["", "", "", " -> int", " -> float", " -> str", " -> List[int]", " -> Optional[str]"]
 
 
+TRAILING_PARAGRAPHS = ["Example usage is shown in the README.\nSee also the tests.", "This call blocks until the device answers.",
+                       "The defaults suit a laptop; raise them on a server.\n\nNothing is written to disk.",
+                       "Deprecated since 2.0, kept for the old clients."]
+TRAILING_SECTIONS = {"google": ["Example:\n  call it with the defaults", "Note:\n  not thread safe", "Raises:\n  ValueError: when empty"],
+                     "numpydoc": ["Notes\n-----\nnot thread safe", "Examples\n--------\ncall it with the defaults", "Example:\n  call it"],
+                     "rest": [".. note:: not thread safe", ":raises ValueError: when empty"]}
+
+
+def _trailing_prose(rng, doc, style, tags, p=0.4):
+    """with probability p the docstring text gets prose AFTER its parameter section, as written docstrings have it: one
+    or two section-less paragraphs, or a further section (Example / Note / Raises), at the very end of the text or
+    between the parameter section and the Returns section (stratum `trailing:<where>:<what>`)"""
+    if rng.random() >= p:
+        return doc
+    what = rng.choice(["paragraph", "paragraph", "paragraph", "section", "both"])
+    extra = []
+    if what in ("paragraph", "both"):
+        extra.append(rng.choice(TRAILING_PARAGRAPHS))
+    if what in ("section", "both"):
+        extra.append(rng.choice(TRAILING_SECTIONS[style]))
+    if rng.random() < 0.3:
+        extra.reverse()
+    extra = "\n\n".join(extra)
+    lines = doc.rstrip("\n").split("\n")
+    rk = next((i for i, l in enumerate(lines) if l in ("Returns:", "Returns") or l.startswith(":returns:")), None)
+    if rk is not None and rng.random() < 0.5:
+        while rk > 0 and not lines[rk - 1].strip():
+            rk -= 1
+        lines[rk:rk] = [""] + extra.split("\n")
+        where = "before-returns"
+    else:
+        lines += [""] + extra.split("\n")
+        where = "end" if rk is None else "after-returns"
+    tags.append("trailing:%s:%s" % (where, what))
+    return "\n".join(lines) + "\n"
+
+
 def _return_tail(rng, ps):
     """the closing statements of an implementation: mostly a `return <expression>`"""
     a = ps[0]["name"] if ps else "1"
@@ -365,6 +402,8 @@ def gen_tree_module(rng):
         without), whose instance argument is called self / cls / anything else / is absent (stratum `receiver:<name>`);
       * an argparse function (parse.argparse_ast, and parse.function on the same node);
       * an ordinary function of fam_parsesig's signature shapes (keyword-only, *args, **kwargs, partial docs).
+    The docstrings of the doc-sharing groups and of the `__init__` have, in a share of the modules, prose AFTER their
+    parameter section (_trailing_prose: section-less paragraphs, further sections; at the end or before Returns).
     Every target names a node of the ONE tree by its path of body indices."""
     import c12_scen as S
     import fam_parsesig
@@ -386,6 +425,7 @@ def gen_tree_module(rng):
         ret = rng.choice(RETURN_ENTRIES) if rng.random() < 0.7 else None
         doc = S.render_doc(rng, style, rng.choice(S.SUMMARIES), ps, ret)
         tags.append("shared-doc:%s:%s" % (style, "returns" if ret else "no-returns"))
+        doc = _trailing_prose(rng, doc, style, tags)
         fname = rng.choice(S.FUNC_NAMES) + ("" if g == 0 else str(g))
         sig = S._sig(rng, ps)
         ann = rng.choice(RET_ANNS)
@@ -431,8 +471,10 @@ def gen_tree_module(rng):
             decorators = ("@classmethod",)
         tags.append("receiver:%s" % (recv if recv in ("self", "cls") else "none" if recv is None else "other"))
         r = rng.random()
-        idoc = "" if r < 0.25 else S._quote(S.render_doc(rng, rng.choice(["rest", "google", "numpydoc"]), rng.choice(["Construct it", ""]), ips,
-                                                          rng.choice(RETURN_ENTRIES) if rng.random() < 0.15 else None), "        ")
+        istyle = rng.choice(["rest", "google", "numpydoc"])
+        idoc = "" if r < 0.25 else S._quote(_trailing_prose(rng, S.render_doc(rng, istyle, rng.choice(["Construct it", ""]), ips,
+                                                                           rng.choice(RETURN_ENTRIES) if rng.random() < 0.15 else None),
+                                                            istyle, tags), "        ")
         inner = S._init(rng, ips, idoc, receiver=recv, decorators=decorators)
         if rng.random() < 0.2:
             inner += "\n\n    def __call__(self, x):\n        return x"
@@ -739,7 +781,8 @@ def oracle(rng, tier):
                 "(key order of params / of each parameter / of returns); IR strata with a ...kwargs parameter that is "
                 "not last; plus parser sequences on shared trees, the parsed IR shared by all four emitters; plus written "
                 "modules (interface stubs and implementations with the character-identical docstring, with/without a "
-                "return entry and a return statement; classes whose __init__ calls its instance self / cls / any other "
+                "return entry and a return statement, with and without paragraphs / further sections after the parameter "
+                "section - at the end of the text or before Returns; classes whose __init__ calls its instance self / cls / any other "
                 "name / nothing, parsed with and without merge_inner_function; argparse functions; plain definitions): "
                 "every sequence of parse calls up to that length on ONE tree object, ast.dump of the tree after every "
                 "call, every IR the caller already holds compared after every later call, every result against the "
